@@ -27,6 +27,8 @@ if [ $MODE = seeded ] || [ $MODE = all ]; then
   for D in $VERIF/seeded/*/; do
     echo "$D" | grep -q "$FILTER" || continue
     P=$(python3 -c "import json,sys; print(json.load(open('$D/meta.json'))['property'])")
+    # a seed recorded as an open gap (meta.json status=missed) is reported, not counted as a regression of the machinery
+    if [ "$(python3 -c "import json; print(json.load(open('$D/meta.json')).get('status',''))")" = missed ]; then echo "KNOWN-MISS $(basename $D) $P (open gap, see meta.json)"; continue; fi
     run $D VIOLATION $P
   done
 fi
